@@ -78,6 +78,9 @@ func propC07(c *Ctx, r *Report) {
 	r.Clauses = append(r.Clauses, "matrix layout through arrays (E13): every site of the SPIR-V backend that emits a MatrixStride member decoration found its matrix by unwrapping array types in a loop (all nesting levels), not once")
 	c.runSeeThrough(r, "layout.seethrough")
 	r.floor("layout.seethrough", 2)
+	r.Clauses = append(r.Clauses, "literal text (E10): no strconv.Parse* / Atoi / fmt.Sscan* call in the frontend receives the raw Value text of a parser.Literal (which keeps the WGSL suffix and may be hexadecimal); numeric text goes through the lowerer's literal parsers, so @workgroup_size(64u), @align(0x10), @id(3u) and suffixed override defaults are not silently replaced by defaults")
+	c.runLiteralRawParse(r, "literal.rawparse", inPkgs("wgsl"), literalRawParseExceptions)
+	r.floor("literal.parses", 25)
 	r.Clauses = append(r.Clauses, "vector alignment factors (E25): every switch over an ir.VectorSize value whose arms only assign or return an integer constant (the alignment / column-stride factor tables of the IR layouter, the size helpers and the SPIR-V MatrixStride decorations) maps Vec2 -> 2 and Vec3, Vec4 -> 4")
 	c.runVecFactor(r, "layout.vecfactor", func(string) bool { return true })
 	r.floor("layout.vecfactor", 5)
